@@ -161,6 +161,38 @@ func (E *Engine) mutableFields(p *packages.Package) map[*types.Var]bool {
 	return m
 }
 
+// declNodeOf reports whether variable o is (somewhere in the package) bound to a function literal.
+func (E *Engine) declNodeOf(p *packages.Package, o types.Object) bool {
+	found := false
+	for _, file := range p.Syntax {
+		if o.Pos() < file.Pos() || o.Pos() > file.End() {
+			continue
+		}
+		ast.Inspect(file, func(n ast.Node) bool {
+			switch s := n.(type) {
+			case *ast.AssignStmt:
+				for i, l := range s.Lhs {
+					if id, ok := l.(*ast.Ident); ok && p.TypesInfo.ObjectOf(id) == o && i < len(s.Rhs) {
+						if _, isLit := ast.Unparen(s.Rhs[i]).(*ast.FuncLit); isLit {
+							found = true
+						}
+					}
+				}
+			case *ast.ValueSpec:
+				for i, id := range s.Names {
+					if p.TypesInfo.ObjectOf(id) == o && i < len(s.Values) {
+						if _, isLit := ast.Unparen(s.Values[i]).(*ast.FuncLit); isLit {
+							found = true
+						}
+					}
+				}
+			}
+			return !found
+		})
+	}
+	return found
+}
+
 func (E *Engine) declOf(fn *types.Func) *ast.FuncDecl { return E.decls[fn] }
 func (E *Engine) pkgOf(fn *types.Func) *packages.Package {
 	return E.declPkg[fn]
@@ -376,6 +408,11 @@ func (E *Engine) VerifyFunc(p *packages.Package, pc *PkgContracts, c *FuncContra
 	}
 	for name := range f.trackCall {
 		env.names["calls:"+name] = Val{T: "0", Typ: types.Typ[types.Int]}
+	}
+	for _, gv := range c.GhostVars {
+		if t := f.specType(gv.Type); t != nil {
+			env.names["$g:"+gv.Name] = Val{T: f.S.Zero(t), Typ: t}
+		}
 	}
 	f.entry = env.clone()
 	scEntry := &specCtx{old: f.entry, pos: decl.Body.Lbrace, scope: decl.Body, pcs: pc}
